@@ -110,6 +110,7 @@ pub struct SimState {
     stdin: InPipe,
     stdout: OutPipe,
     workers: Vec<shuttle::thread::JoinHandle<()>>,
+    future_workers: Vec<shuttle::future::JoinHandle<()>>,
     live_workers: u64,
     pub events: Vec<Ev>,
     pub counters: Counters,
@@ -171,6 +172,7 @@ impl Sim {
                 stdin: InPipe::default(),
                 stdout: OutPipe { capacity: cfg.out_capacity, ..Default::default() },
                 workers: Vec::new(),
+                future_workers: Vec::new(),
                 live_workers: 0,
                 events: Vec::new(),
                 counters: Counters::default(),
@@ -488,6 +490,23 @@ impl Sim {
         std::mem::take(&mut self.st.borrow_mut().workers)
     }
 
+    pub fn take_future_workers(&self) -> Vec<shuttle::future::JoinHandle<()>> {
+        std::mem::take(&mut self.st.borrow_mut().future_workers)
+    }
+
+    /// Stands in for `tokio::spawn`: the future runs on a simulator task of its own.
+    pub fn spawn_future(self: &Rc<Self>, f: std::pin::Pin<Box<dyn std::future::Future<Output = ()> + Send>>) {
+        let task = me();
+        let worker = {
+            let mut st = self.st.borrow_mut();
+            st.counters.workers_spawned += 1;
+            st.counters.workers_spawned as usize - 1
+        };
+        self.log(Ev::Spawn { task, worker });
+        let h = shuttle::future::spawn(f);
+        self.st.borrow_mut().future_workers.push(h);
+    }
+
     pub fn point(&self, label: &'static str) {
         let task = me();
         if label == "publish" {
@@ -778,6 +797,13 @@ impl SimHooks for Hooks {
     fn point(&self, label: &'static str) {
         if let Some(sim) = current() {
             sim.point(label);
+        }
+    }
+
+    fn spawn_future(&self, f: std::pin::Pin<Box<dyn std::future::Future<Output = ()> + Send>>) {
+        match current() {
+            Some(sim) => sim.spawn_future(f),
+            None => panic!("verif: spawn_future outside a simulation"),
         }
     }
 
